@@ -523,6 +523,11 @@ class MutableDensePauliString(BaseDensePauliString):
     def _value_equality_values_(self):
         return self.coefficient, tuple(PAULI_CHARS[p] for p in self.pauli_mask)
 
+    def _value_equality_approximate_values_(self):
+        # Without this the cached getter installed on the immutable base class is inherited,
+        # and approximate equality keeps comparing the values from before a mutation.
+        return self._value_equality_values_()
+
     @classmethod
     def inline_gaussian_elimination(cls, rows: list[MutableDensePauliString]) -> None:
         if not rows:
